@@ -1013,6 +1013,20 @@ def crafted_xlsx_layouts(data):
     yield "xlsx-absolute-sheet-targets", zip_build(out2)
     out3 = [(n, b.replace(b'Target="../', b'Target="../../../') if n == rels else b) for n, b in members]
     yield "xlsx-table-target-above-root", zip_build(out3)
+    # the sheet part at the package root (a part name without any folder), named by an absolute, a
+    # parent-relative and a bare target: code that splits a part name at its last '/' must cope
+    for tag, target in (("abs", b"/" + base.encode()), ("up", b"../" + base.encode()), ("dot", b"./../" + base.encode())):
+        out4 = []
+        for n, b in members:
+            if n == sh:
+                out4.append((base, b))
+            elif n == rels:
+                out4.append(("_rels/" + base + ".rels", b.replace(b'Target="../', b'Target="xl/')))
+            elif n == "xl/_rels/workbook.xml.rels":
+                out4.append((n, b.replace(b'Target="worksheets/' + base.encode() + b'"', b'Target="' + target + b'"')))
+            else:
+                out4.append((n, b))
+        yield "xlsx-sheet-at-package-root-" + tag, zip_build(out4)
 
 def systematic_xlsb(data, per_key=1):
     try:
